@@ -20,9 +20,9 @@ Proof.
 Qed.
 
 (** C09: every frame of every history was emitted with nothing pending *)
-Lemma frames_after_commit t0 h o c f b :
+Lemma frames_after_commit t0 h o c f b tx :
   In o (snd (run cfg (init cfg t0) h)) ->
-  In (LFrame c f b) (o_log o ++ o_boot_log o) -> b = true.
+  In (LFrame c f b tx) (o_log o ++ o_boot_log o) -> b = true.
 Proof.
   intros Ho Hin. destruct (init_spec cfg Hexp t0) as [Hi _].
   destruct (run_spec cfg Hexp _ h Hi) as [_ Hall]. destruct (Hall o Ho) as [H1 H2].
